@@ -487,12 +487,22 @@ Proof.
 Qed.
 
 (* pools over a subset of the inverters: the total of exactly the requested ones *)
-Theorem battery_pool_formula : forall fb roots bsel, wf roots = true ->
-  eval (battery_pool_terms fb roots bsel) = total (tot_sel (bat_sel bsel)) roots.
+Theorem battery_pool_formula : forall fb roots bids ts, wf roots = true ->
+  battery_pool_terms fb roots bids = Some ts -> eval ts = total (tot_sel (bat_sel bids)) roots.
 Proof.
-  intros fb roots bsel H. destruct (wf_parts _ H) as (_ & _ & Hwf). unfold battery_pool_terms, total.
-  apply (roots_eval (by_inverters is_bat_inv (bat_sel bsel) fb) _ _ _ Hwf). intros n Hn.
+  intros fb roots bids ts H Hts. destruct (wf_parts _ H) as (_ & _ & Hwf). unfold battery_pool_terms in Hts.
+  destruct (forallb _ (all_nodes roots)); [|discriminate]. injection Hts as <-. unfold total.
+  apply (roots_eval (by_inverters is_bat_inv (bat_sel bids) fb) _ _ _ Hwf). intros n Hn.
   apply (by_inverters_node _ _ _ (or_intror eq_refl) _ _ Hn).
+Qed.
+
+(* the generator succeeds exactly when every inverter of a requested battery has all its batteries requested *)
+Lemma battery_pool_defined : forall fb roots bids,
+  (exists ts, battery_pool_terms fb roots bids = Some ts) <->
+  forallb (fun n => implb (bat_sel bids n) (bat_closed bids n)) (all_nodes roots) = true.
+Proof.
+  intros. unfold battery_pool_terms. destruct (forallb _ (all_nodes roots)); split; intros H; try reflexivity;
+    try (eexists; reflexivity); try discriminate. destruct H as (ts & H). discriminate.
 Qed.
 
 Theorem pv_pool_formula : forall fb roots psel, wf roots = true ->
@@ -641,8 +651,8 @@ Definition f9b_witness : list node :=
 (* before the fix the pool formula read the shared meter 3: 30 W instead of 10 W *)
 Lemma pool_before_fix_refuted :
   wf f9b_witness = true /\
-  eval (battery_pool_terms_before_fix true f9b_witness [4]) <> total (tot_sel (bat_sel [4])) f9b_witness /\
-  eval (battery_pool_terms true f9b_witness [4]) = 10.
+  eval (battery_pool_terms_before_fix true f9b_witness [5]) <> total (tot_sel (bat_sel [5])) f9b_witness /\
+  option_map eval (battery_pool_terms true f9b_witness [5]) = Some 10.
 Proof. repeat split; vm_compute; congruence. Qed.
 
 (* ------------------------------------------------------------------ no formula reads a CHP itself *)
